@@ -137,3 +137,12 @@ def balance_deltas(ctx, f):
 
 def is_addr(ctx, key_comp, s):
     return ctx.atom_of(key_comp) is ctx.atom_of(s)
+
+
+def variant_is(ctx, prog_types, v, name):
+    """z3/bool: does enum value v (forced or still lazy) have variant `name`"""
+    f = lazy_forced(ctx, v)
+    if f is not None and not isinstance(f, (SymEnum, SymVec)): return f.variant == name
+    if isinstance(v, SymEnum) and v.disc is not None:
+        return v.disc == v.tdef.variant_index(name)
+    raise Unsupported(f"variant of lazy {v!r}")
